@@ -62,6 +62,7 @@ type GenCfg struct {
 	MaxNP       int      // default 4
 	Kinds       []string // default allKinds
 	NoIPBlocks  bool
+	NoNamesake  bool // never add a bare Pod that shares namespace and name with a controller workload
 	NoNamedRisk bool // never generate named ports that may have to be resolved on an IP
 	OmitNs      bool // allow documents without metadata.namespace
 	Exposureish bool // bias selectors towards values no workload has
@@ -420,6 +421,17 @@ func GenWorld(t *rapid.T, cfg GenCfg) *World {
 		used[wl.Ns+"/"+wl.Name] = true
 		w.Workloads = append(w.Workloads, wl)
 	}
+	// a bare Pod that is the namesake of a controller workload of its namespace (Deployment "db" next to Pod "db"):
+	// two workloads that agree on namespace and name and differ in kind, labels and ports. Their pods have different
+	// names ("db" vs "db-1"), so nothing collides - unless something is keyed by namespace/name alone.
+	if !cfg.NoNamesake && len(w.Workloads) > 0 && (cfg.Kinds == nil || containsStr(cfg.Kinds, "Pod")) && rapid.IntRange(0, 5).Draw(t, "namesake") == 0 {
+		src := w.Workloads[rapid.IntRange(0, len(w.Workloads)-1).Draw(t, "namesakeof")]
+		if src.Kind != "Pod" && !isOwned(src.Kind) {
+			twin := genWorkload(t, "namesakewl", src.Ns, &cfg)
+			twin.Name, twin.Kind, twin.MixedOwnerAPI = src.Name, "Pod", false
+			w.Workloads = append(w.Workloads, twin)
+		}
+	}
 	nnp := rapid.IntRange(0, cfg.MaxNP).Draw(t, "nnp")
 	for i := 0; i < nnp; i++ {
 		l := fmt.Sprintf("np%d", i)
@@ -558,4 +570,13 @@ func PermuteWorld(t *rapid.T, label string, w *World) *World {
 		pa(c.BANP, label+"banp")
 	}
 	return c
+}
+
+func containsStr(xs []string, x string) bool {
+	for _, y := range xs {
+		if y == x {
+			return true
+		}
+	}
+	return false
 }
